@@ -1,3 +1,4 @@
+import GoSSE.Proofs.GenEquiv
 import GoSSE.Proofs.MessageFields
 import GoSSE.Proofs.MessageBuild
 /-!
@@ -136,5 +137,16 @@ theorem id_cannot_inject (mode : Mode) (id₀ : Bytes) (f : MField) (h : f.set =
     { chunks := by intro c hc; simp at hc, id := h, typ := by intro h'; simp at h', retry := Or.inl (by simp [Message.millis]) }
   have := run_flatMap_encode mode id₀ [({ id := f } : Message)] (by intro m hm; simp at hm; subst hm; exact hw)
   simpa [builtOf, dataOf] using this
+
+
+/-! ### The translated source text (regenerated from /repo on every run) -/
+
+/-- `isSingleLine` *as translated from message.go* (through the translated `parser.NewlineIndex`) is the model's
+predicate, for every string, and never panics: the gate every construction route passes through. -/
+theorem translated_isSingleLine_is_model (fuel : Nat) (p : Bytes) (hf : p.length < fuel) :
+    Gen.isSingleLine fuel p = .ok (isSingleLine p) :=
+  GenEquiv.isSingleLine_eq fuel p hf
+
+example : Gen.isSingleLine 5 [97, 13, 98] = .ok false := by rfl
 
 end GoSSE.Props.C14
